@@ -256,7 +256,7 @@ def gen_case(seed, tier, prop="C11"):
     loop = LoopConfig(eager=rng.random() < 0.3, cap=8000, p_late=rng.choice([0, 0, 0.2]),
                       p_stall=rng.choice([0, 0, 0.05])).to_json()
     return {"engine": "conds", "prop": "C11", "tasks": tasks, "ext": ext, "nev": nev, "loop": loop,
-            "own_lock": rng.random() < 0.3, "sched_seed": rng.getrandbits(32)}
+            "own_lock": rng.random() < 0.3, "sched_seed": rng.getrandbits(32), "outside": rng.random() < 0.2}
 
 
 class CondRun:
@@ -311,11 +311,19 @@ class CondRun:
         # recorded its acquisition yet
         return True
 
+    def make_prims(self):
+        case = self.case
+        return (Condition(anyio.Lock()) if case["own_lock"] else Condition()), [Event() for _ in range(case["nev"])]
+
     async def main(self):
         self.h.loop = loop = self.sim.loop
         case = self.case
-        self.cond = Condition(anyio.Lock()) if case["own_lock"] else Condition()
-        self.events = [Event() for _ in range(case["nev"])]
+        if self.pre is not None:
+            # created before the event loop existed (LockAdapter / EventAdapter objects)
+            self.cond, self.events = self.pre
+            self.probes["primitives_created_outside_the_loop"] = 1
+        else:
+            self.cond, self.events = self.make_prims()
         self.model = CondModel(self.faults)
         for t, what, arg in case["ext"]:
             if what == "cancel":
@@ -578,6 +586,13 @@ class CondRun:
 
     def execute(self):
         sim = self.sim
+        self.pre = self.make_prims() if self.case.get("outside") else None
+        if self.pre is not None and self.pre[1] and self.case["sched_seed"] % 2:
+            # an event that is set while no event loop exists yet must be set for the tasks that wait on it later
+            self.pre[1][0].set()
+            self.eset_at[0] = (0, 0)
+            if not self.pre[1][0].is_set():
+                self.v("event_unset", "event 0 reports is_set()=False right after set() (outside the event loop)")
         sim.run(self.main)
         if sim.outcome == "deadlock":
             self.v("stuck", f"would block forever: {sim.error}; waiting={sorted(self.in_wait)} ewait={sorted(self.in_ewait)}")
